@@ -29,6 +29,8 @@ def check(sc, obs):
         return None
     if obs.get("cancel_delivered") and sc["cancel_at"] >= obs.get("body_end_time", 1e9):
         return None     # cancellation delivered while the exits run: outside this property's quantifier (see C07/C02)
+    if obs.get("self_cancelled") is not None:
+        return None     # a request made as the body's last statement is delivered while the exits run: same case
     if sorted(e[1] for e in exits) != list(range(n)):
         return f"after the body: exited {sorted(e[1] for e in exits)}, expected each of {n} exactly once"
     kind, exc = obs.get("outcome", (None, None))
@@ -43,6 +45,8 @@ def check(sc, obs):
             return f"state lookup inside the scope failed: {seen!r}"
         if want_a and seen[0].v == 1:
             return "state yielded by a disposable is not visible inside the scope"
+        if not want_a and seen[0].v != 1:
+            return f"the scope's own explicit state is not visible inside it next to the disposables' state (saw A(v={seen[0].v}))"
         failing = [i for i, (_, x) in enumerate(sc["disps"]) if x.endswith("fail")]
         if not obs.get("cancel_delivered"):
             cut = [e[1] for e in log if e[0] == "exit-interrupted"]
